@@ -41,12 +41,17 @@ type c17Ans struct {
 var c17Peers []peer.ID
 var c17Addr = map[common.Address]int{}
 
-func c17Init(t *testing.T) {
-	if c17Peers != nil {
-		return
+func c17Init(t *testing.T) { c17Grow(t, 6) }
+
+var c17Rng *vrng
+
+// c17Grow makes sure at least n identities exist (deterministic sequence)
+func c17Grow(t *testing.T, n int) {
+	if c17Rng == nil {
+		c17Rng = newVrng(12345, 17)
 	}
-	rng := newVrng(12345, 17)
-	for len(c17Peers) < 6 {
+	rng := c17Rng
+	for len(c17Peers) < n {
 		k, err := crypto.ToECDSA(rng.bytes(32))
 		if err != nil {
 			continue
@@ -115,7 +120,10 @@ func c17Run(t *testing.T, in c17In) (res []c17Ans) {
 		}
 	}()
 	for _, op := range in.Ops {
-		id := c17Peers[op.ID%len(c17Peers)]
+		if op.ID >= len(c17Peers) {
+			c17Grow(t, op.ID+1) // identities are a fixed sequence: id k is the same peer in every run
+		}
+		id := c17Peers[op.ID]
 		switch op.T {
 		case "block":
 			s.blockPeer(id, time.Duration(op.Dur), "verif")
@@ -261,6 +269,33 @@ func TestVerifC17(t *testing.T) {
 			}
 		}
 		in := c17In{Tag: "random", Ops: ops}
+		out.emit(in, map[string]any{"answers": c17Run(t, in)})
+	}
+	// a long block list: more entries than any bound the sources are likely to put on it; the
+	// early permanent and timed blocks behave as if they were alone
+	{
+		n := 1400
+		c17Grow(t, n)
+		M := int64(60) * S
+		ops := []c17Op{{T: "block", ID: 0, Dur: 0}, {T: "block", ID: 1, Dur: 2 * M}, {T: "advance", Dt: S}}
+		for i := 6; i < n; i++ {
+			ops = append(ops, c17Op{T: "block", ID: i, Dur: []int64{5 * M, 2 * M, 0}[i%3]})
+			if i%350 == 0 {
+				ops = probe(ops, 0)
+				ops = probe(ops, 1)
+				ops = probe(ops, 6)
+			}
+		}
+		ops = probe(ops, 0)
+		ops = probe(ops, 1)
+		ops = probe(ops, 7)
+		ops = append(ops, c17Op{T: "list", IDs: []int{0, 1, 6, 7, 8, 700, 1399}}, c17Op{T: "advance", Dt: 3 * M})
+		ops = probe(ops, 0)
+		ops = probe(ops, 1)
+		ops = probe(ops, 6)
+		ops = probe(ops, 8)
+		ops = append(ops, c17Op{T: "list", IDs: []int{0, 1, 6, 7, 8, 700, 1399}})
+		in := c17In{Tag: "long-block-list", Ops: ops}
 		out.emit(in, map[string]any{"answers": c17Run(t, in)})
 	}
 	out.emit(c17In{Tag: "race-expiry-vs-block", Ops: []c17Op{}}, c17Race(t, vcount(30000, 300000)))
